@@ -58,6 +58,12 @@ def step (s : St) (toks : List String) : St × String :=
     match parseHeader h with
     | some h => guarded h [] (fun _ => (s, showHeader (removeHopByHop h))) s
     | none => (s, "bad-op")
+  | ["hbhres", st, h] =>
+    match st.toNat?, parseHeader h with
+    | some st, some h => guarded h [] (fun _ =>
+        let r := (hbhRes false { hdr := h, status := st }).1
+        (s, s!"{r.status} {showHeader r.hdr}")) s
+    | _, _ => (s, "bad-op")
   | ["via", ma, mi, name, bd, h] =>
     match parseEnv ma mi name bd "-" "-" "-" "-", parseHeader h with
     | some env, some h => guarded h [env.name, env.boundary] (fun _ =>
